@@ -131,6 +131,15 @@ theorem vnbest_total_preserved (cfg : Cfg) (ids ids' : List Nat) (ws : List Int)
   have s2 := sum_loads (ws := ws) (ids := ids) (k := partCount ids) hlen (inRange_partCount ids)
   exact ⟨h2, h3, s1, by omega⟩
 
+/-- The guard of commit bff6050 (N9: `break` unless `part_loads[over] - w` and
+`part_loads[under] + w` are both strictly below the current maximum `part_loads[over]`) is
+vacuous on exact weights: it always passes once `imbalance > w > 0` held.  It exists for
+rounded floating-point loads, which are outside this model (the harness's raw-float stream checks
+them by oracle under a watchdog). -/
+theorem vnbest_guard_vacuous (lo lu w : Int) (hw : 0 < w) (hlt : w < lo - lu) :
+    lo - w < lo ∧ lu + w < lo ∧ (!(decide (lo - w < lo) && decide (lu + w < lo))) = false :=
+  ⟨by omega, by omega, VnBest.guard_vacuous_int hw hlt⟩
+
 /-- VnBest terminates without panicking on EVERY input and weight type: no `unwrap` on an empty
 `minmax`, no index out of bounds, no unsigned underflow, and the fuel `Σ load² + 1` of the input
 is never exhausted (Σ load² strictly decreases with every move – `VnBest.sumsq_move_lt`). -/
@@ -259,6 +268,8 @@ example : ((VnFirst.start {} [0,1,2,3,1,2,0] [1,5,1,3,3,1,5]).bind
     (VnFirst.steps {} [1,5,1,3,3,1,5] 4 2)).map (fun s => (s.ids, s.pl))
       = some ([0,2,0,3,1,2,0], [7,3,6,3]) ∧
     loads [1,5,1,3,3,1,5] [0,2,0,3,1,2,0] 4 = [7,3,6,3] := by decide
+/-- hypotheses of `vnbest_guard_vacuous` -/
+example : (0:Int) < 3 ∧ (3:Int) < 8 - 2 := by decide
 /-- hypotheses of `vnbest_step` -/
 example : ([6,8,2,3] : List Int)[1]? = some (maxL [6,8,2,3]) ∧
     ([6,8,2,3] : List Int)[2]? = some (minL [6,8,2,3]) ∧ (0:Int) < 3 ∧ 3 < gap [6,8,2,3] := by decide
@@ -273,6 +284,7 @@ end Coupe.Vn
 #print axioms Coupe.Vn.vnbest_gap_le
 #print axioms Coupe.Vn.vnbest_total_preserved
 #print axioms Coupe.Vn.vnbest_terminates
+#print axioms Coupe.Vn.vnbest_guard_vacuous
 #print axioms Coupe.Vn.vnfirst_loads_inv
 #print axioms Coupe.Vn.vnfirst_len_mismatch
 #print axioms Coupe.Vn.vnfirst_gap_le
